@@ -39,7 +39,7 @@ deriving Repr, DecidableEq
 inductive Ev where
   | simBegin | simEnd | flush
   | sessionBegin (k : Nat) | sessionEnd (k : Nat)
-  | hookSessionBefore (k time : Nat) | hookSessionAfter (k time : Nat)
+  | hookSessionBefore (k time : Nat) | hookSessionAfter (k : Nat) (time : Int)
   | setRunning (m : Nat) (b : Bool)
   | hookStepBefore (m t : Nat) | stepBegin (m t : Nat) | stepEnd (m t : Nat) | hookStepAfter (m t : Nat)
   | consult (a : Nat) (hft : Bool)
@@ -217,7 +217,7 @@ def runSession (ms : Markets) (k : Nat) (cfg : SessionCfg) (start : Nat) (tapes 
     ++ ms.map (fun m => Ev.setRunning m.1 cfg.execution)
   let body := runSteps ms cfg start cfg.execution tapes cfg.steps
   if body.ok then
-    { tr := head ++ body.tr ++ [Ev.hookSessionAfter k (start + cfg.steps - 1), Ev.sessionEnd k, Ev.flush],
+    { tr := head ++ body.tr ++ [Ev.hookSessionAfter k (((start + cfg.steps : Nat) : Int) - 1), Ev.sessionEnd k, Ev.flush],
       ok := true, flag := body.flag }
   else { tr := head ++ body.tr, ok := false, flag := body.flag }
 
